@@ -5,7 +5,9 @@ ENTRY = dict(
     level="proof",
     level_text=("Lean 4 theorems over an executable port of schema/builder.go (ProcessBuilder, DefinitionBuilder, "
                 "AutoLayout with levels/rows/coordinates/waypoints/stacking), for build scripts of any length and "
-                "every injective id oracle; tied to the code by a bit-exact differential of nodes, flows, shapes, "
+                "every injective id oracle; the produced chain RUNS as the property says — for every number of added "
+                "activities the engine model requests them once each in insertion order and then reaches the end event "
+                "(Props/C01Chain.chain_conformance, induction along the chain, every code configuration); tied to the code by a bit-exact differential of nodes, flows, shapes, "
                 "edges and waypoints, by evaluating the C19 predicates on the implementation's output, by the XML "
                 "round trip and by engine runs of the built definitions"),
     level_note=("trusted: Lean kernel, the differential harness; modelled: float64 layout arithmetic as Int in "
@@ -13,7 +15,7 @@ ENTRY = dict(
                 "quotient, RandBytes as an oracle stream recovered from the produced ids; the engine run and the "
                 "XML round trip are tested, not proved"),
     technique="Lean 4 proof (state invariants over build scripts, layout geometry) + bit-exact model/implementation differential",
-    lean_modules=["Bpmn.Props.C19", "Bpmn.Props.C19Current"],
+    lean_modules=["Bpmn.Props.C19", "Bpmn.Props.C19Current", "Bpmn.Props.C01Chain"],
     families=["c19"],
     exhaustive=False,
     multi_seed=False,   # the systematic, exhaustive and grid parts do not depend on the seed
